@@ -26,7 +26,7 @@ STUBBED = c02.STUBBED
 ASSUMPTIONS = c02.ASSUMPTIONS + ['the role shown for a connection is judged absolutely only when its first message is '
                                  'get_registry, otherwise relationally (same with and without neighbours)',
                                  'Closed notices are an unordered block (set iteration in the tool)']
-SHRINK_FIELDS = ['intents', 'sink_ops']
+SHRINK_FIELDS = ['intents', 'sink_ops']      # (exhaustive walks are reported with their interleaving, not shrunk)
 
 CONN_LINE_RE = re.compile(r'^( => |    )([A-Z]+) \((.*)\): (open|closed), (\d+) messages$')
 
@@ -35,6 +35,16 @@ def generate(seed, tier, index):
     rng = random.Random('%d/gen' % seed)
     if index % 4 == 3:
         return generate_sink(seed, rng)
+    if tier == 'thorough' and index % 16 == 2:
+        # bonus (the claim stays sampling): ALL order-preserving interleavings of a tiny case, k * len <= 8
+        k = rng.choice([2, 2, 3])
+        lens = {2: rng.choice([(4, 4), (3, 5), (2, 6), (3, 3)]), 3: rng.choice([(3, 3, 2), (2, 2, 2), (4, 2, 2)])}[k]
+        per = [L.gen_conn_intents(seed, c, lens[c], rng.choice(['churn', 'objects', 'mixed']), registry_first=rng.random() < 0.5)
+               for c in range(k)]
+        cfg = {'kind': 'exhaustive', 'nconn': k, 'sides': [rng.choice(['client', 'server']) for _ in range(k)],
+               'dialect': L.pick_dialect(rng, 2), 'epoch_us': 0, 'mode': 'file', 'rig': 'main', 'chunks': [1 << 20],
+               'suppress': False, 'synth': True}
+        return {'prop': ID, 'seed': seed, 'config': cfg, 'intents': [], 'per_conn': per}
     r = rng.random()
     if r < 0.06:
         nconn = rng.randint(27, 30)
@@ -101,9 +111,58 @@ def strip_projection(text):
     return rest, life
 
 
+def all_merges(lens):
+    def rec(remaining, prefix):
+        if not any(remaining):
+            yield list(prefix)
+            return
+        for i, r in enumerate(remaining):
+            if r:
+                remaining[i] -= 1
+                prefix.append(i)
+                yield from rec(remaining, prefix)
+                prefix.pop()
+                remaining[i] += 1
+    yield from rec(list(lens), [])
+
+
+def execute_exhaustive(sc):
+    per = sc['per_conn']
+    total = None
+    n = 0
+    for order in all_merges([len(p) for p in per]):
+        pos = [0] * len(per)
+        intents = []
+        for c in order:
+            intents.append(['tick', 137])
+            intents.append(per[c][pos[c]])
+            pos[c] += 1
+        one = {'prop': ID, 'seed': sc['seed'], 'config': dict(sc['config'], kind='interleave'), 'intents': intents}
+        r = execute(one)
+        n += 1
+        if total is None:
+            total = r
+        else:
+            total['evals'] += r['evals']
+            total['nt_keys'] += r['nt_keys']
+            for k, v in r['counters'].items():
+                total['counters'][k] = total['counters'].get(k, 0) + v
+        if r['violations']:
+            total['violations'] = r['violations']
+            for v in total['violations']:
+                v['detail'] += ' [interleaving %s of the exhaustive walk]' % ''.join(map(str, order))
+            break
+    total['counters']['exhaustive_walks'] = 1
+    total['counters']['exhaustive_interleavings'] = n
+    total['sample'] = {'config': sc['config'], 'interleavings_walked': n}
+    return total
+
+
 def execute(sc):
     if sc['config']['kind'] == 'sink':
         return execute_sink(sc)
+    if sc['config']['kind'] == 'exhaustive':
+        return execute_exhaustive(sc)
     V = common.Viol()
     st = L.build_stream(sc, rig.REPO)
     res, tr = common.observe_file(sc, st, script=('connection', 'quit'))
